@@ -4,7 +4,7 @@ from . import core, eng, engcheck, sgen, surfcheck, surface as S
 
 THEOREMS = ["products_correct", "desugarFlat_correct", "desugar_correct", "desugarRule_isSome", "cons_split_heads", "consS_fact", "desugarRules_correct", "derivable_desugar",
             "stdOps_sugarSound", "stdOps_varsSound", "documented", "f10_capture",
-            "surface_to_physical", "desugarRule_desugared", "desugarRules_desugared", "surface_to_physical'"]
+            "surface_to_physical", "desugarRule_desugared", "desugarRules_desugared", "surface_to_physical'", "surface_to_physical_agg"]
 TRUSTED = ["Lean 4.33.0 kernel", "axioms: propext, Classical.choice, Quot.sound only (audited per theorem)",
            "statement: Props/C07.lean; Props/C07Phys.lean + Props/C07Desugared.lean compose it with the physical-index engine theorem of C01: the code generated for the desugared rules, "
            "run over its hash indices, ends with the least model of the DOCUMENTED meaning of the surface rules (surface_to_physical'); the output of the desugaring model is a fixed "
@@ -271,4 +271,4 @@ def check(tier, replay=None):
 
 
 import os
-MODULES = ["AscentVerif.Props.C07", "AscentVerif.Props.C07Phys", "AscentVerif.Props.C07Desugared"] if os.path.exists(os.path.join(core.LEAN, "AscentVerif", "Props", "C07.lean")) else []
+MODULES = ["AscentVerif.Props.C07", "AscentVerif.Props.C07Phys", "AscentVerif.Props.C07Desugared", "AscentVerif.Props.C07PhysAgg"] if os.path.exists(os.path.join(core.LEAN, "AscentVerif", "Props", "C07.lean")) else []
